@@ -237,3 +237,13 @@ def run(case: dict):
         ret = step(s, op, log)
         outs.append({"ret": ret, "regs": [None if x is None else snapn(x) for x in s.regs], "_sharing": _sharing(s.regs)})
     return outs, log
+
+
+def run_unobserved(case: dict) -> dict:
+    """the same history on fresh objects without reading anything between the operations (see impl1.run_unobserved)"""
+    s = Store()
+    log: list = []
+    ret = None
+    for op in case["ops"]:
+        ret = step(s, op, log)
+    return {"ret": ret, "regs": [None if x is None else snapn(x) for x in s.regs], "_sharing": _sharing(s.regs)}
